@@ -380,7 +380,7 @@ OBLIGATIONS = [
        functions=[OptionsParser._parse_options, OptionsParser._add_option],
        bounds='all option strings of length <= 4 (thorough 6) over {a b = , " \\ space}'),
     Ob('match_options', match_options,
-       sym=dict(nfrom=R(0, 2), f0=B, f1=B, nprin=R(0, 2), pa=R(0, 3), pb=R(0, 3), cert=R(0, 3)), timeout=150,
+       sym=dict(nfrom=R(0, 2), f0=B, f1=B, nprin=R(0, 2), pa=R(0, 3), pb=R(0, 3), cert=R(0, 3)), shards=dict(cert=[0, 1, 2, 3]), timeout=400,
        functions=[AK._SSHAuthorizedKeyEntry.match_options, AK._SSHAuthorizedKeyEntry._add_from, AK._SSHAuthorizedKeyEntry._add_principals],
        bounds='0..2 from= lists, 0..2 principals= lists (4 forms incl. negation), certificate principals in {none, [], [alice], [bob, alfred]}'),
     Ob('validate_first', validate_first,
